@@ -272,7 +272,7 @@ fn try_main() -> Result<i32> {
             println!("laze: building {apps} for {builders}");
 
             // collect CLI selected/disabled modules
-            let select = get_selects(build_matches);
+            let select = get_selects(build_matches)?;
             let disable = get_disables(build_matches);
 
             // collect CLI env overrides
@@ -539,10 +539,16 @@ fn get_disables(build_matches: &clap::ArgMatches) -> Option<Vec<String>> {
     disable
 }
 
-fn get_selects(build_matches: &clap::ArgMatches) -> Option<Vec<Dependency<String>>> {
+fn get_selects(build_matches: &clap::ArgMatches) -> Result<Option<Vec<Dependency<String>>>> {
     let select = build_matches.get_many::<String>("select");
     // convert CLI --select strings to Vec<Dependency>
-    select.map(|vr| vr.map(crate::data::dependency_from_string).collect_vec())
+    select
+        .map(|vr| {
+            vr.map(crate::data::dependency_from_string)
+                .collect::<Result<Vec<_>>>()
+                .context("--select")
+        })
+        .transpose()
 }
 
 #[cfg(test)]
